@@ -105,7 +105,7 @@ ClauseNames ==
     "C10_unchanged",
     "C11_invalid_refused", "C11_adds_exactly", "C11_preserves",
     "C12_function_of_log", "C12_reads_pure", "C12_history_grows", "C12_readable", "C12_consistent",
-    "C14_ref", "C14_epics_flat", "C14_bad_refused", "C14_compact_keeps",
+    "C14_ref", "C14_epics_flat", "C14_bad_refused", "C14_compact_keeps", "C14_visible",
     "C15_progress", "C15_waits", "C15_claim",
     "C16_one_value", "C16_truth", "C16_reads",
     "C20_only_grow", "C20_confined", "C20_live_only", "C20_faithful",
@@ -126,7 +126,7 @@ ClauseNames ==
     "C18_where", "C18_same_store", "C18_lands", "C18_reads_work", "C18_lock", "C18_init",
     "C19_summary_noready", "C19_ready_rows", "C19_all_once", "C19_active_once", "C19_ready_exact", "C19_known_rows", "C19_tree", "C19_summary", "C19_empty", "C19_fits", "C19_idcol", "C19_utf8",
     "C12_file_total", "C12_file_names_line", "C12_file_shows", "C12_file_deterministic", "C12_file_pure",
-    "C17_roundtrip", "C17_stays", "C17_accepted", "C17_overlimit", "C17_blank",
+    "C17_roundtrip", "C17_stays", "C17_accepted", "C17_overlimit", "C17_blank", "C10_text_reject",
     "R_step", "R_reply", "R_time", "R_preview", "R_faillog" }
 
 Eval(n, o) ==
@@ -168,6 +168,7 @@ Eval(n, o) ==
     [] n = "C12_readable" -> P!C12_readable(o)
     [] n = "C12_consistent" -> P!C12_consistent(o)
     [] n = "C14_ref" -> P!C14_ref(o)
+    [] n = "C14_visible" -> P!C14_visible(o)
     [] n = "C14_epics_flat" -> P!C14_epics_flat(o)
     [] n = "C14_bad_refused" -> P!C14_bad_refused(o)
     [] n = "C14_compact_keeps" -> P!C14_compact_keeps(o)
@@ -234,6 +235,7 @@ Eval(n, o) ==
     [] n = "C17_accepted" -> Tx!C17_accepted(o.text)
     [] n = "C17_overlimit" -> Tx!C17_overlimit(o.text)
     [] n = "C17_blank" -> Tx!C17_blank(o.text)
+    [] n = "C10_text_reject" -> Tx!C10_text_reject(o.text)
     [] n = "R_step" -> R_step(o)
     [] n = "R_reply" -> R_reply(o)
     [] n = "R_time" -> R_time(o)
@@ -255,7 +257,7 @@ ConcNames == {"C01_serial", "C01_no_double", "C01_outcomes", "C01_winner_holds",
               "C08_serial",
               "C01_nowait",
               "C03_readable", "C03_only_own_missing", "C03_continues", "C04_all_or_nothing"}
-TextNames == {"C18_where", "C18_same_store", "C18_lands", "C18_reads_work", "C18_lock", "C18_init", "C19_summary_noready", "C19_ready_rows", "C19_all_once", "C19_active_once", "C19_ready_exact", "C19_known_rows", "C19_tree", "C19_summary", "C19_empty", "C19_fits", "C19_idcol", "C19_utf8", "C12_file_total", "C12_file_names_line", "C12_file_shows", "C12_file_deterministic", "C12_file_pure", "C17_roundtrip", "C17_stays", "C17_accepted", "C17_overlimit", "C17_blank"}
+TextNames == {"C18_where", "C18_same_store", "C18_lands", "C18_reads_work", "C18_lock", "C18_init", "C19_summary_noready", "C19_ready_rows", "C19_all_once", "C19_active_once", "C19_ready_exact", "C19_known_rows", "C19_tree", "C19_summary", "C19_empty", "C19_fits", "C19_idcol", "C19_utf8", "C12_file_total", "C12_file_names_line", "C12_file_shows", "C12_file_deterministic", "C12_file_pure", "C17_roundtrip", "C17_stays", "C17_accepted", "C17_overlimit", "C17_blank", "C10_text_reject"}
 Wanted(r) == IF "only" \in DOMAIN r THEN ToSet(r.only) \cap ClauseNames ELSE ClauseNames \ (ConcNames \cup TextNames)
 
 Init == i = 0 /\ bad = {}
